@@ -1,0 +1,81 @@
+//go:build verif
+
+package extractor
+
+import (
+	"runtime"
+	"sync"
+	"sync/atomic"
+)
+
+// Event tracing for the verification harness (build tag `verif` only).
+//
+// verifTrace is called at the points of the batcher / extractor / aggregation-loop code that are
+// transitions of the verification models.  With the tag off it is an empty function (see
+// verif_trace_off.go).  With the tag on, and only while a harness has switched recording on,
+// each call appends one event to a process-global, mutex-protected log.  The position in the log
+// is the global sequence number; the goroutine id identifies the process.  Nothing else is done:
+// no channel operation, no sleep, no access to the state of the code under observation.
+
+// VerifEvent is one logged event.
+type VerifEvent struct {
+	G    uint64 // id of the goroutine that logged the event
+	Ev   string // event name
+	S    string // source name (or "")
+	A, B uint64 // numeric arguments
+}
+
+var verifLog struct {
+	on  int32 // atomic: recording switched on
+	mu  sync.Mutex
+	evs []VerifEvent
+}
+
+// VerifTraceStart clears the log and switches recording on.
+func VerifTraceStart() {
+	verifLog.mu.Lock()
+	verifLog.evs = make([]VerifEvent, 0, 4096)
+	verifLog.mu.Unlock()
+	atomic.StoreInt32(&verifLog.on, 1)
+}
+
+// VerifTraceStop switches recording off and returns the events logged since VerifTraceStart.
+func VerifTraceStop() []VerifEvent {
+	atomic.StoreInt32(&verifLog.on, 0)
+	verifLog.mu.Lock()
+	evs := verifLog.evs
+	verifLog.evs = nil
+	verifLog.mu.Unlock()
+	return evs
+}
+
+// VerifTraceAppend logs one event (used by the hooks of the other packages and by harness code
+// standing in for the consumer / aggregator / renderer).
+func VerifTraceAppend(ev string, s string, a, b uint64) {
+	if atomic.LoadInt32(&verifLog.on) == 0 {
+		return
+	}
+	g := verifGoid()
+	verifLog.mu.Lock()
+	verifLog.evs = append(verifLog.evs, VerifEvent{G: g, Ev: ev, S: s, A: a, B: b})
+	verifLog.mu.Unlock()
+}
+
+func verifTrace(ev string, s string, a, b uint64) {
+	VerifTraceAppend(ev, s, a, b)
+}
+
+// verifGoid parses the goroutine id out of the first line of the stack trace ("goroutine 123 [").
+func verifGoid() uint64 {
+	var buf [64]byte
+	n := runtime.Stack(buf[:], false)
+	var id uint64
+	for i := len("goroutine "); i < n; i++ {
+		c := buf[i]
+		if c < '0' || c > '9' {
+			break
+		}
+		id = id*10 + uint64(c-'0')
+	}
+	return id
+}
